@@ -7,6 +7,7 @@ import (
 	"fmt"
 	"os"
 	"os/exec"
+	"runtime"
 	"strings"
 	"sync"
 	"testing"
@@ -272,20 +273,18 @@ func checkDateTimeCore(c dCase) (site, msg string) {
 			return "uhppote.GetStatus/event-timestamp", fmt.Sprintf("status event timestamp %s came back as %s", text, got)
 		}
 		// the listener combines system date and time the same way
-		rec := &recorder{}
+		rec := &recorder{ch: make(chan struct{}, 64)}
 		q := make(chan os.Signal)
 		done := make(chan error, 1)
 		go func() { done <- u.Listen(rec, q) }()
-		for i := 0; i < 200000 && !rec.connected(); i++ {
-			time.Sleep(50 * time.Microsecond)
-		}
-		for i := 0; i < 200000 && !drv.Listening(); i++ { // (the in-memory driver accepts datagrams once the library has called its Listen)
-			time.Sleep(50 * time.Microsecond)
+		for i := 0; i < 2000000 && !(rec.connected() && drv.Listening()); i++ { // (the in-memory driver accepts datagrams once the library has called its Listen)
+			runtime.Gosched()
+			if i > 2000 {
+				time.Sleep(20 * time.Microsecond)
+			}
 		}
 		drv.Push(s)
-		for i := 0; i < 20000 && rec.count() == 0; i++ {
-			time.Sleep(50 * time.Microsecond)
-		}
+		rec.waitCount(1, time.Second)
 		// the same controller again with its clock a little less than a day back, then a little less than a day on (a clock
 		// that was corrected between two events, events replayed from the store): every event is decoded on its own
 		var laterTexts []string
@@ -299,9 +298,7 @@ func checkDateTimeCore(c dCase) (site, msg string) {
 			s2[toff], s2[toff+1], s2[toff+2] = bcd(at.Hour()), bcd(at.Minute()), bcd(at.Second())
 			laterTexts = append(laterTexts, fmt.Sprintf("%04d-%02d-%02d %02d:%02d:%02d", at.Year(), int(at.Month()), at.Day(), at.Hour(), at.Minute(), at.Second()))
 			drv.Push(s2)
-			for i := 0; i < 20000 && rec.count() < k+2; i++ {
-				time.Sleep(50 * time.Microsecond)
-			}
+			rec.waitCount(k+2, time.Second)
 		}
 		close(q)
 		<-done
@@ -529,6 +526,28 @@ type recorder struct {
 	events []types.Status
 	errs   []string
 	conn   bool
+	ch     chan struct{} // a token per callback (waiters do not poll)
+}
+
+func (r *recorder) signal() {
+	if r.ch != nil {
+		select {
+		case r.ch <- struct{}{}:
+		default:
+		}
+	}
+}
+
+// waitCount waits until at least n callbacks have been recorded (or the time is up).
+func (r *recorder) waitCount(n int, limit time.Duration) {
+	deadline := time.After(limit)
+	for r.count() < n {
+		select {
+		case <-r.ch:
+		case <-deadline:
+			return
+		}
+	}
 }
 
 func (r *recorder) OnConnected() {
@@ -540,11 +559,13 @@ func (r *recorder) OnEvent(s *types.Status) {
 	r.mu.Lock()
 	r.events = append(r.events, *s)
 	r.mu.Unlock()
+	r.signal()
 }
 func (r *recorder) OnError(err error) bool {
 	r.mu.Lock()
 	r.errs = append(r.errs, err.Error())
 	r.mu.Unlock()
+	r.signal()
 	return true
 }
 func (r *recorder) connected() bool {
